@@ -12,6 +12,7 @@
     batch with a journal naming the blob in flight: refused with an error, or the imported connection authenticates nothing in either
     direction (record of the imported connection checked against the peer's record protection, record of the peer read from the imported
     connection), never a panic; DTLS 1.3 state is refused by MarshalBinary, UnmarshalBinary and ResumeWithOptions."""
+import importlib
 import json
 import os
 import random
@@ -169,7 +170,7 @@ def run(chk):
                 cursor += 1
                 cases.append(dict({"name": "%s/%s/%s" % (name, fname, "".join("%s%s" % (x["act"][0], x["e"]) for x in s["steps"])),
                                    "scen": fsc, "steps": s["steps"], "warm": rng.choice([0, 0, 1, 2, 3, 5, 8])}, **extra))
-    rc, txt, rows, wd = run_harness("TestVerifExportImport", cases, timeout=2400)
+    rc, txt, rows, wd = run_harness("TestVerifExportImport", cases, timeout=2400, env={"VERIF_KEEP_EVENTS": "1"})
     shutil.rmtree(wd, ignore_errors=True)
     if rc != 0 or not rows:
         raise vlib.Inconclusive("export/import harness failed: " + txt[-3000:])
@@ -189,6 +190,19 @@ def run(chk):
             ndiv += 1
             if ndiv <= 4:
                 chk.note("DIVERGENCE model/code (not a verdict): %s [%s]" % (r["diverge"][0], c["name"]))
+    # (C) the wire record numbers of every session, all incarnations, are validated by TLC against the numbering
+    # projection of RecordLayer.tla (TraceNumbering.tla): the trace must be consumed completely
+    c09 = importlib.import_module("checks.c09")
+    flagged = set(r["case"] for r in rows[:-1] if any(v["kind"] == "record-number-reused" for v in (r.get("violations") or [])))
+    rejected = c09.validate_traces(chk, cases, [dict(case=r["case"], records=r.get("recs") or []) for r in rows[:-1] if not r.get("lab")])
+    if not chk.violations and not rejected and chk.parts.get("trace_validation", {}).get("events", 0) < 5 * len(cases):
+        raise vlib.Inconclusive("vacuous trace validation: %s" % chk.parts.get("trace_validation"))
+    for case_id, rec in rejected:
+        if case_id not in flagged:
+            chk.violation({"kind": "record-number-trace", "what": "TLC: the numbering projection cannot consume record %s" % rec,
+                           "config": cases[case_id]["name"], "case": cases[case_id]})
+    if flagged and not rejected:
+        raise vlib.Inconclusive("harness predicate and TLC trace validation disagree on record numbers")
     for c in cases:
         chk.distinct.add(c["name"])
     chk.evaluated(n=summ.get("records", 0))
